@@ -174,7 +174,7 @@ def make_sched_run(cfg):
     import decimal as _decimal
     vals = {"A": THREAD_VALUES["A"] + [_uuid.UUID(int=5)], "B": THREAD_VALUES["B"] + [_decimal.Decimal("2.50")]}
     ser = serializers.serializers[cfg["ser"]]
-    watch = S.watch_functions(serializers.SerializerBase, type(ser))
+    watch = S.watch_functions(serializers.SerializerBase, type(ser), follow=True)
     op = cfg["op"]
 
     def do(v):
